@@ -37,6 +37,8 @@ CALLEES = {
     "mix": ("def mix(x: Qint[2], y: bool) -> Tuple[Qint[2], bool]:\n\treturn (x + 1, y)", ["Qint[2]", "bool"], "Tuple[Qint[2], bool]"),
     "nestt": ("def nestt(x: bool, y: bool) -> Tuple[Tuple[bool, bool], bool]:\n\treturn ((x, y), x ^ y)", ["bool", "bool"], "Tuple[Tuple[bool, bool], bool]"),
     "swp": ("def swp(t: Qlist[Qint[2], 2]) -> Qlist[Qint[2], 2]:\n\treturn [t[1], t[0]]", ["Qlist[Qint[2], 2]"], "Qlist[Qint[2], 2]"),
+    "tfirst": ("def tfirst(t: Tuple[Qint[4], bool]) -> Qint[4]:\n\treturn t[0] if t[1] else 0", ["Tuple[Qint[4], bool]"], "Qint[4]"),
+    "tmid": ("def tmid(t: Tuple[bool, Qint[4], bool]) -> Qint[4]:\n\treturn t[1] if (t[0] or t[2]) else 1", ["Tuple[bool, Qint[4], bool]"], "Qint[4]"),
 }
 
 CALLERS = [
@@ -104,7 +106,22 @@ CALLERS = [
     (["nestt"], "def c(a: bool, b: bool) -> bool:\n\tr = nestt(b, a)\n\treturn r[0][0] and r[1]"),
     (["swp"], "def c(a: Qint[2], b: Qint[2]) -> Qint[2]:\n\tr = swp([a, b])\n\treturn r[0]"),
     (["swp"], "def c(a: Qint[2], b: Qint[2]) -> bool:\n\tr = swp([a, b])\n\treturn r[1] == a"),
+    # tuple actuals with an element NARROWER than the formal's element: rejected, or Python's value (padding belongs to the element, not the tuple's end)
+    (["tfirst"], "def c(a: bool) -> Qint[4]:\n\treturn tfirst((2, a))"),
+    (["tfirst"], "def c(a: bool, n: Qint[2]) -> Qint[4]:\n\treturn tfirst((n, a))"),
+    (["tfirst"], "def c(a: bool, n: Qint[4]) -> Qint[4]:\n\treturn tfirst((n, a))"),
+    (["tmid"], "def c(a: bool, b: bool, n: Qint[2]) -> Qint[4]:\n\treturn tmid((a, n, b))"),
+    (["tmid"], "def c(a: bool, b: bool) -> Qint[4]:\n\treturn tmid((a, 3, b))"),
     (["both"], "def c(a: bool, b: bool) -> bool:\n\treturn both(a)"),          # arity mismatch: must raise
+]
+
+# a function NAME defined twice in one caller (Python: the later definition wins): (definitions passed with defs=, caller source with inline defs)
+REDEFINITIONS = [
+    ([], "def c(a: bool, b: bool) -> bool:\n\tdef g(x: bool, y: bool) -> bool:\n\t\treturn x and y\n\tdef g(x: bool, y: bool) -> bool:\n\t\treturn x or not y\n\treturn g(a, b)"),
+    ([], "def c(a: bool, b: bool) -> bool:\n\tdef g(x: bool, y: bool) -> bool:\n\t\treturn x and y\n\tr = g(a, b)\n\tdef g(x: bool, y: bool) -> bool:\n\t\treturn x ^ y\n\treturn g(r, b)"),
+    (["both"], "def c(a: bool, b: bool) -> bool:\n\tdef both(x: bool, y: bool) -> bool:\n\t\treturn x or y\n\treturn both(a, b)"),
+    (["inc"], "def c(a: Qint[2]) -> Qint[2]:\n\tdef inc(x: Qint[2]) -> Qint[2]:\n\t\treturn x + 2\n\treturn inc(a)"),
+    (["neg", "neg"], "def c(a: bool) -> bool:\n\treturn neg(a)"),          # the same definition handed in twice
 ]
 
 
@@ -379,6 +396,40 @@ def job_uf(a):
                 detail=f"call g({', '.join(actual_src)}) -> {[str(e) for e in got]}; callee definitions {[(str(s_), str(e_)) for s_, e_ in defs]}"[:600], **base)]
 
 
+def job_redefinition(a):
+    """a name bound twice (two inline defs / defs= plus an inline def / the same definition twice in defs=): rejected, or the LATEST definition's meaning"""
+    idx, profile = a
+    callees, src = REDEFINITIONS[idx]
+    from qlasskit import qlassf
+    key = hashlib.sha1(src.encode()).hexdigest()[:8]
+    name = f"C07.redefinition.latest-wins-or-rejected[{profile},{'+'.join(callees) or 'inline'},{key}]"
+    base = dict(strength="bounded", backend="truth-table", instance_key=f"redef:{src}", caller=src)
+    prof = bounded.profiles()[profile]
+    try:
+        cqfs = [qlassf(CALLEES[c][0], to_compile=False, bool_optimizer=prof) for c in callees]
+        qf = qlassf(src, defs=cqfs, to_compile=False, bool_optimizer=prof)
+    except Exception as ex:  # noqa
+        return [res(name, PROVED, nontrivial=False, note=f"rejected: {type(ex).__name__}", outcome="rejected", **base)]
+    names, tabs, mask = bounded.expr_tables(qf, 12)
+    rets = list(qf.returns.bitvec)
+    if any(tabs.get(r) is None for r in rets):
+        return [res(name, REFUTED, replayed=True, replay=dict(caller=src, observed="return bits depend on symbols nothing defines"), **base)]
+    ns = reference(src, callees)
+    fn = pysem.compile_reference(src, ns)
+    n = len(names)
+    for r in range(1 << n):
+        row = [(r >> i) & 1 == 1 for i in range(n)]
+        o = pysem.evaluate(fn, [x.ttype for x in qf.args], qf.returns.ttype, row)
+        if o[0] != "value" or o[2]:
+            continue
+        got = [(tabs[x] >> r) & 1 == 1 for x in rets]
+        if got != o[1]:
+            return [res(name, REFUTED, replayed=True, replay=dict(caller=src, callees_passed_with_defs=callees, input_bits=dict(zip(names, [int(b) for b in row])),
+                                                                observed_return_bits=[int(b) for b in got], expected_return_bits=[int(b) for b in o[1]],
+                                                                expected="the meaning of the LATEST definition of the name (Python), or a rejection"), **base)]
+    return [res(name, PROVED, nontrivial=True, **base)]
+
+
 def job_reuse(a):
     """The SAME definition object handed to several callers, one after the other (QlassF objects through qlassf(defs=...), the same LogicFun
     tuple through QlassF.from_function(defs=...), and the same function oraclized twice): every caller gets what a fresh definition gives."""
@@ -438,6 +489,9 @@ def run(tier, only=None):
         for bk in UF_BODIES:
             for ak in UF_ACTUALS:
                 jobs.append((job_uf, (fk, bk, ak)))
+    for i in range(len(REDEFINITIONS)):
+        for profile in ("default", "fast"):
+            jobs.append((job_redefinition, (i, profile)))
     for kind in ("qlassf-defs", "logicfun-tuple", "oraclize-twice"):
         for profile in ("default", "fast"):
             jobs.append((job_reuse, (kind, profile)))
